@@ -48,7 +48,37 @@ func meta(prop, level, technique, rule string, quick, thorough int, required []s
 }
 
 func init() {
-	meta("C01", "exploration", "deterministic simulation: seeded single-client op sequences vs reference map",
+	seqTech := "deterministic simulation: seeded single-client operation sequences on the simulated disk under the cooperative scheduler; "
+	meta("C01", "exploration", seqTech+"reference-map oracle after every step",
 		NontrivialRuleText["C01"], 12000, 400000,
 		[]string{"rotations", "writes_spanning_blocks", "writes_ending_near_boundary", "oversized_writes", "overwrites", "deletes_present", "batches", "merges", "restarts_after_merge"})
+	meta("C02", "exploration", seqTech+"restart as a generated step with an independently drawn reader configuration; dump before Close == dump after Open",
+		NontrivialRuleText["C02"], 12000, 400000,
+		[]string{"restarts", "restart_config_changed", "restart_file_end_near_boundary", "restart_file_end_on_boundary", "restarts_after_merge", "batches", "rotations"})
+	meta("C05", "exploration", seqTech+"layered overlay model for an open batch",
+		NontrivialRuleText["C05"], 12000, 400000,
+		[]string{"batches", "batch_repeat_key", "batch_put_then_delete", "batch_get_from_db", "rotations"})
+	meta("C06", "exploration", seqTech+"dumps before/after Merge and after the adopting and following restarts; journal-derived layout oracle for the adopted directory",
+		NontrivialRuleText["C06"], 10000, 300000,
+		[]string{"merges", "restarts_after_merge", "adoptions_checked", "adoptions_fewer_files", "merge_dir_gone"})
+	meta("C10", "exploration", seqTech+"frozen sorted-slice cursor model for iterator sessions",
+		NontrivialRuleText["C10"], 12000, 400000,
+		[]string{"iter_sessions_multi", "iter_seeks", "iter_rewinds", "iter_nexts", "iter_interleaved_writes", "lists", "folds"})
+	meta("C13", "exploration", seqTech+"unsynced-bytes invariants of the journalled disk model evaluated at every return",
+		NontrivialRuleText["C13"], 12000, 400000,
+		[]string{"always_checks", "threshold_checks", "sync_batch_checks", "all_synced_checks", "rotations_checked"},
+		"for mmap files 'flushed' means covered by an msync issued after the store; msync makes the whole mapping durable")
+	meta("C15", "exploration", seqTech+"hostile caller: one reused key buffer and one reused value buffer, poisoned after each return, canaries, kept Get results",
+		NontrivialRuleText["C15"], 12000, 400000,
+		[]string{"puts", "batch_repeat_key", "gets", "dumps"},
+		"pool-mediated aliasing is made reproducible by the deterministic LIFO replacement of sync.Pool")
+	meta("C17", "exploration", seqTech+"Stat recomputed at every step by scanning the files with the package's own reader",
+		NontrivialRuleText["C17"], 8000, 250000,
+		[]string{"stat_checks", "batches", "merges", "restarts", "oversized_files_ok", "rotations"})
+	meta("C18", "exploration", seqTech+"hint entries decoded and compared with a scan of the merged files; hint-path Open vs scan-path Open",
+		NontrivialRuleText["C18"], 8000, 250000,
+		[]string{"hint_checks", "hint_multi_file_output", "hint_vs_scan_opens"})
+	meta("C20", "exploration", seqTech+"Backup as a generated step; the copy is opened while the source stays open and compared with the reference map",
+		NontrivialRuleText["C20"], 6000, 200000,
+		[]string{"backups", "backups_mmap"})
 }
